@@ -186,6 +186,14 @@ class CLI:
         else:
             self.parser.parse_args(['-h'])
 
+    def print_usage(self):
+        """
+        Print the help of the current command to stderr. Unlike
+        :meth:`do_help` this returns, so the caller can exit with an error
+        status.
+        """
+        self.commands[self._args.cmd].print_help(sys.stderr)
+
     def do_detect(self):
         self._args.cmd = 'detect'
         return self.detect_or_inspect(inspect=False)
@@ -227,7 +235,7 @@ class CLI:
                 mos_file_keys = [self._args.key]
             else:
                 sys.stderr.write("Prefix or file key must be provided with bucket name\n\n")
-                self.do_help()
+                self.print_usage()
                 return 2
             for mos_file_key in mos_file_keys:
                 try:
@@ -241,7 +249,7 @@ class CLI:
                     print()
         else:
             sys.stderr.write("Files or bucket name and prefix or key must be provided\n\n")
-            self.do_help()
+            self.print_usage()
             return 2
 
     def detect_file(self, mo, filename):
@@ -274,7 +282,7 @@ class CLI:
                     )
             else:
                 sys.stderr.write("Files or bucket name and prefix must be provided\n\n")
-                self.do_help()
+                self.print_usage()
                 return 2
         except InvalidMosCollection as e:
             sys.stderr.write(f"Error: {e}\n")
